@@ -2864,8 +2864,14 @@ pub fn freeze(env: &mut FreezeEnv, expr: &LocExpr) -> NRes<LocExpr> {
                         .flat_map(|x| x.collect_identifiers(false /* declared_only */))
                         .collect::<HashSet<String>>(),
                 );
+                // parameter defaults and annotations are expressions too: resolve their free
+                // variables now instead of at every call
+                let frozen_params = params
+                    .iter()
+                    .map(|p| box_freeze_lvalue(&mut env2, p))
+                    .collect::<NRes<Vec<Box<Lvalue>>>>()?;
                 Ok(Expr::Lambda(
-                    params.clone(),
+                    Rc::new(frozen_params),
                     Rc::new(freeze(&mut env2, body)?),
                 ))
             }
